@@ -20,7 +20,9 @@ def main():
     if os.path.exists(npath):
         notes = json.load(open(npath))
     rows = []
-    for md in sorted(glob.glob(os.path.join(root, "out", "C*", "m*"))):
+    for md in sorted(glob.glob(os.path.join(root, "out", "C*", "m[0-9]"))):
+        if not os.path.isdir(md):
+            continue
         pid, k = md.split("/")[-2], md.split("/")[-1]
         name = "%s-%s" % (pid, k)
         try:
